@@ -1,5 +1,7 @@
 ------------------------------ MODULE MC_MarkdownDoc ------------------------------
 EXTENDS MarkdownDoc, Json
 Texts == [x \in 1..Len(lines) |-> lines[x].txt]
-Emit == Done => PrintT(<<"REPLAY", ToJson([lines |-> Texts, ref |-> MdRef(doc), machine |-> [tests |-> tests, err |-> err]])>>)
+SegInfo == [x \in 1..Len(doc) |-> [k |-> doc[x].k, len |-> Len(RenderSeg(doc[x])), ncom |-> Len(doc[x].com), cfg |-> doc[x].cfg,
+                                hascmd |-> (doc[x].k = "scrut" /\ HasCmd(doc[x].lines)), term |-> doc[x].term, n |-> doc[x].n, cn |-> doc[x].cn]]
+Emit == Done => PrintT(<<"REPLAY", ToJson([lines |-> Texts, segs |-> SegInfo, ref |-> MdRef(doc), machine |-> [tests |-> tests, err |-> err]])>>)
 =============================================================================
